@@ -173,7 +173,8 @@ theorem host_upper_tri_index (n i j : Nat) (hij : i < j) (hj : j < n) :
     omega
 
 /-- index computed by io.py's `upper_tri_index` for a DEGENERATE pair `(k, k)`: it is the slot of the unrelated
-    pair `(k-1, n-1)` for `1 ≤ k < n`, and `-1` (NumPy: the LAST slot) for `k = 0`. -/
+    pair `(k-1, n-1)` for `1 ≤ k < n`, and `-1` (NumPy: the LAST slot) for `k = 0` — the reason why `put_model`
+    rejects such pairs. -/
 theorem self_pair_index (n k : Nat) (hk : k < n) :
     upperTriIndex (n : Int) (k : Int) (k : Int) = if k = 0 then -1 else (natIdx n (k - 1) (n - 1) : Int) := by
   have h2 := two_rowStart n k (by omega)
@@ -286,12 +287,12 @@ theorem lastMatch_congr {α : Type} (m m' : α → Bool) : ∀ (ps : List α) (k
     simp only [lastMatch]
     rw [ih (k + 1) (fun q hq => h q (List.mem_cons_of_mem _ hq)), h p (List.mem_cons_self ..)]
 
-/-- the write loop: if every write index is in range, the loop does not raise, keeps the length and the
-    final value at `pos` is the id of the LAST pair whose index is `pos`, else the old value -/
+/-- the write loop: if no pair is a self pair and every write index is in range, the loop does not raise, keeps the
+    length and the final value at `pos` is the id of the LAST pair whose index is `pos`, else the old value -/
 theorem applyPairs_spec (n : Int) (L : Nat) : ∀ (ps : List (Int × Int)),
-    (∀ p ∈ ps, ∃ q : Nat, upperTriIndex n p.1 p.2 = (q : Int) ∧ q < L) →
+    (∀ p ∈ ps, p.1 ≠ p.2 ∧ ∃ q : Nat, upperTriIndex n p.1 p.2 = (q : Int) ∧ q < L) →
     ∀ (k : Nat) (t : List Int), t.length = L →
-      ∃ t', applyPairs n ps k t = some t' ∧ t'.length = L ∧
+      ∃ t', applyPairs n ps k t = .ok t' ∧ t'.length = L ∧
         ∀ pos, pos < L → t'[pos]? =
           (match lastMatch (fun p => decide (upperTriIndex n p.1 p.2 = (pos : Int))) ps k with
            | some r => some (r : Int)
@@ -303,13 +304,13 @@ theorem applyPairs_spec (n : Int) (L : Nat) : ∀ (ps : List (Int × Int)),
     exact ⟨t, rfl, ht, fun pos _ => by simp [lastMatch]⟩
   | cons p ps ih =>
     intro hps k t ht
-    obtain ⟨q, hq, hqL⟩ := hps p (List.mem_cons_self ..)
+    obtain ⟨hne, q, hq, hqL⟩ := hps p (List.mem_cons_self ..)
     have hset : npSet t (upperTriIndex n p.1 p.2) (Int.ofNat k) = some (t.set q (Int.ofNat k)) := by
       rw [hq]; exact npSet_inrange t q _ (by omega)
     obtain ⟨t', h1, h2, h3⟩ := ih (fun p' hp' => hps p' (List.mem_cons_of_mem _ hp')) (k + 1)
       (t.set q (Int.ofNat k)) (by simp [ht])
     refine ⟨t', ?_, h2, ?_⟩
-    · simp only [applyPairs, hset]; exact h1
+    · simp only [applyPairs, if_neg hne, hset]; exact h1
     · intro pos hpos
       rw [h3 pos hpos]
       simp only [lastMatch]
@@ -323,6 +324,50 @@ theorem applyPairs_spec (n : Int) (L : Nat) : ∀ (ps : List (Int × Int)),
           simp [hq, ht, hqL]
         · have : ¬ (upperTriIndex n p.1 p.2 = (pos : Int)) := by rw [hq]; omega
           simp [hqp, this]
+
+/-- ACCEPTANCE EXCLUDES SELF PAIRS (no hypothesis): if the loop completes, no pair lists a geom twice — the test
+    `pair_geom1[i] == pair_geom2[i]` precedes every write -/
+theorem applyPairs_ok_no_self (n : Int) : ∀ (ps : List (Int × Int)) (k : Nat) (t t' : List Int),
+    applyPairs n ps k t = .ok t' → ∀ p ∈ ps, p.1 ≠ p.2 := by
+  intro ps
+  induction ps with
+  | nil => intro k t t' _ p hp; cases hp
+  | cons p ps ih =>
+    intro k t t' h q hq
+    by_cases hself : p.1 = p.2
+    · simp only [applyPairs, if_pos hself, reduceCtorEq] at h
+    · simp only [applyPairs, if_neg hself] at h
+      cases hs : npSet t (upperTriIndex n p.1 p.2) (Int.ofNat k) with
+      | none => rw [hs] at h; simp only [reduceCtorEq] at h
+      | some t'' =>
+        rw [hs] at h
+        rcases List.mem_cons.mp hq with rfl | hq'
+        · exact hself
+        · exact ih (k + 1) t'' t' h q hq'
+
+/-- REJECTION: if the writes of the proper pairs are in range (so that no IndexError comes first) and some pair is a
+    self pair, the loop ends with NotImplementedError -/
+theorem applyPairs_self_rejected (n : Int) (L : Nat) : ∀ (ps : List (Int × Int)),
+    (∀ p ∈ ps, p.1 ≠ p.2 → ∃ q : Nat, upperTriIndex n p.1 p.2 = (q : Int) ∧ q < L) →
+    (∃ p ∈ ps, p.1 = p.2) →
+    ∀ (k : Nat) (t : List Int), t.length = L → applyPairs n ps k t = .notImplemented := by
+  intro ps
+  induction ps with
+  | nil => rintro _ ⟨p, hp, -⟩; cases hp
+  | cons p ps ih =>
+    intro hps hex k t ht
+    by_cases hself : p.1 = p.2
+    · simp only [applyPairs, if_pos hself]
+    · obtain ⟨q, hq, hqL⟩ := hps p (List.mem_cons_self ..) hself
+      have hset : npSet t (upperTriIndex n p.1 p.2) (Int.ofNat k) = some (t.set q (Int.ofNat k)) := by
+        rw [hq]; exact npSet_inrange t q _ (by omega)
+      have hex' : ∃ p' ∈ ps, p'.1 = p'.2 := by
+        obtain ⟨p', hp', he⟩ := hex
+        rcases List.mem_cons.mp hp' with rfl | hp''
+        · exact absurd he hself
+        · exact ⟨p', hp'', he⟩
+      simp only [applyPairs, if_neg hself, hset]
+      exact ih (fun p' hp' => hps p' (List.mem_cons_of_mem _ hp')) hex' (k + 1) _ (by simp [ht])
 
 /-! ## C. int32 bit operations -/
 
